@@ -1,5 +1,5 @@
 (* Model of the vial position groups (snowflake.py: getVialGroup, the group labels of
-   to_frame's statistics and trajectory tables; snowfall.py: the isin filter).
+   to_frame's statistics and trajectory tables; snowfall.py: the group filter of the accessors).
    Groups are decided from the exposure count VIAL_EXT of model/Topology.v. *)
 From Coq Require Import ZArith List Bool.
 From Snow Require Import Topology.
@@ -120,9 +120,10 @@ Fixpoint eqb_zs (l1 l2 : list Z) : bool :=
   | a :: r1, b :: r2 => (a =? b) && eqb_zs r1 r2
   | _, _ => false
   end.
-(* Snowfall filter df.group.isin([g]): vials whose statistics-table label is literally g *)
+(* Snowfall group filter of the accessors: df.vial.isin(where(getVialGroup([g]))) -- the vials the group query selects
+   (before the repair it compared the statistics-table label literally with g, so 'side' selected nothing on a flat shelf) *)
 Definition filter_vials a nx ny nz (g : Z) : list Z :=
-  filter (fun i => label_code (label_stats a nz (vial_ext a nx ny nz i)) =? g)
+  filter (fun i => in_groups a nz [group_of_code g] (vial_ext a nx ny nz i))
          (zrange (Z.to_nat (nvials nx ny nz))).
 Definition c16_case_ok
   (c : arrangement * Z * Z * Z * list (list Z * list bool) * list Z * list Z * list (Z * list Z)) : bool :=
